@@ -63,3 +63,14 @@ Proof.
               (find_iter sm input) (find_iter_RInv _ sm input Hn) Hv) as (st' & outs & E & _). eauto.
 Qed.
 Print Assumptions C07_compiled_never_panics.
+
+(* for scanners built (in the model of the pipeline) from ANY source configuration with at least
+   one mode whose transitions lead to existing modes: no call of any valid history panics. The
+   well-formedness of the compiled modes is proved (EndToEnd2.built_modes_ok), not assumed. *)
+From Scnr Require Import Nfa Compile EndToEnd EndToEnd2.
+Theorem C07_built_scanner_never_panics :
+  forall tbl l cms, build_scanner l = Some cms -> 0 < length l -> trans_valid l ->
+  forall input ops sm, Forall (op_valid (length cms) input) ops ->
+  exists st' outs, run_history (impl_scanner tbl cms) (find_iter sm input) ops = Some (st', outs).
+Proof. exact built_scanner_never_panics. Qed.
+Print Assumptions C07_built_scanner_never_panics.
